@@ -200,6 +200,39 @@ func runC11(cfg *config, res *monitor.Result) {
 				if codec.Name() != "proto" {
 					viol("GrpcCodec", "name", "GrpcCodec.Name() is "+codec.Name(), d)
 				}
+				// Size of a message that was sized and marshaled before (above) and is then changed in place:
+				// must follow the contents, like the owning runtime's Size and the marshaled length do
+				cur := cloneDyn(d)
+				mr := monitor.NewRand(cfg.seed, "c11mut", t.pkg.GoPkg, string(t.md.FullName()), ci)
+				mg := cfg.gen(t, "mut", ci)
+				mg.NoExt = true
+				for k := 0; k < 3; k++ {
+					mu := randomMutation(mr, mg, cur.ProtoReflect())
+					if mu == nil {
+						continue
+					}
+					if !mu.apply(cur.ProtoReflect()) || !mu.apply(bridge.Reflect(gen)) {
+						break
+					}
+					evals++
+					sz := csproto.Size(gen)
+					fresh, err := build(t, cur)
+					if err != nil {
+						break
+					}
+					bm, err := ops.marshal(fresh)
+					if err != nil {
+						break
+					}
+					if sz != len(bm) {
+						viol("Size", "stale-after-mutation", fmt.Sprintf("after %q on a message sized before, csproto.Size=%d; the owning runtime marshals the current contents to %d bytes", mu.desc, sz, len(bm)), cur)
+						break
+					}
+					if bc, err := csproto.Marshal(gen); err != nil || len(bc) != len(bm) {
+						viol("Marshal", "stale-after-mutation", fmt.Sprintf("after %q on a message marshaled before, csproto.Marshal returned %d bytes (err=%v); the owning runtime marshals the current contents to %d bytes", mu.desc, len(bc), err, len(bm)), cur)
+						break
+					}
+				}
 			})
 			if pi != nil {
 				viol("any", "panic:"+pi.Frame, "a shim call panicked: "+pi.Value, d)
